@@ -135,6 +135,8 @@ def run(chk):
     chk.coverage["extended_fragment_runs_ending_in_violation"] = sum(1 for c, ci, cm, co, ev in res if ci["outcome"].startswith("viol"))
     for c, ci, cm, co, ev in res[-1:]:
         chk.sample({"program": c.src, "impl": ci["outcome"]})
+    # (e') generator pipelines (the iterator adaptors that must forward a violation instead of swallowing it)
+    libprobe.pipeline_transparency(chk, rng, 100 if quick else 1500, prefix="c06")
     return chk.finish(rule="generated core programs with typed error values injected at argument positions (unique messages), "
                            "targeted leftmost-error programs (every subset of erroring arguments of a k-ary user function, direct / via variable / via lambda, "
                            "inside tuple and array construction and under is_error), and call/depth limit sweeps 1..need+1 on handler-wrapped programs; "
